@@ -154,6 +154,8 @@ type FakeAuth struct {
 	// Before / After run around Answer when the authenticator is served in memory (ProxyOpts.InMemoryAuth)
 	Before func(c *AuthCall)
 	After  func(c *AuthCall)
+	// ScriptPanic: what Answer panicked with on a server goroutine (re-raised by Take on the harness goroutine)
+	ScriptPanic interface{}
 }
 
 func NewFakeAuth() *FakeAuth {
@@ -165,13 +167,24 @@ func NewFakeAuth() *FakeAuth {
 		if len(parts) == 2 {
 			c.Slug, c.Endpoint = parts[0], parts[1]
 		}
-		f.mu.Lock()
 		ans := AuthAnswer{Status: 500, Body: "no script"}
-		if f.Answer != nil {
-			ans = f.Answer(&c)
-		}
-		f.Calls = append(f.Calls, c)
-		f.mu.Unlock()
+		func() {
+			f.mu.Lock()
+			defer f.mu.Unlock()
+			// (a panic of the script — the explorer reporting a divergence — must not leave the lock held for
+			// ever: it is kept for the harness goroutine to re-raise, and this call is answered 500)
+			defer func() {
+				if r := recover(); r != nil {
+					if f.ScriptPanic == nil {
+						f.ScriptPanic = r
+					}
+				}
+			}()
+			if f.Answer != nil {
+				ans = f.Answer(&c)
+			}
+			f.Calls = append(f.Calls, c)
+		}()
 		if ans.Hang {
 			select {
 			case <-r.Context().Done():
@@ -219,9 +232,12 @@ func NewFakeAuth() *FakeAuth {
 
 func (f *FakeAuth) Take() []AuthCall {
 	f.mu.Lock()
-	defer f.mu.Unlock()
-	c := f.Calls
-	f.Calls = nil
+	c, p := f.Calls, f.ScriptPanic
+	f.Calls, f.ScriptPanic = nil, nil
+	f.mu.Unlock()
+	if p != nil {
+		panic(p)
+	}
 	return c
 }
 
